@@ -7,6 +7,7 @@ from __future__ import annotations
 import base64
 import binascii
 import copy
+import io
 import json
 import os
 import random
@@ -31,9 +32,12 @@ MANIFEST = {
             "carry qualifier values / nested class changes (proved witnesses, known findings). Tie: route/except/raise/commit/decode/response "
             "tables regenerated from http.py by ast; random + exhaustive-short request histories through werkzeug.test.Client on "
             "DictObjectStore and LocalFileObjectStore, status + Location + canonical payload + store snapshot compared after every request.",
-    "note": "covers shells, submodels, concept descriptions, nested elements (Property/Collection) by idShort path, qualifiers, submodel "
-            "refs, paging, level=core; NOT covered: attachments, SubmodelElementList children, asset-information, shell/submodel superpath, "
-            "$reference routes, idShort/assetIds/semanticId filters; bodies abstracted to decode outcomes; werkzeug routing/conversion trusted and sampled",
+    "note": "Lean model + tie cover shells, submodels, concept descriptions, nested elements (Property/Collection) by idShort path, qualifiers, submodel "
+            "refs, paging, level=core; covered by the reference-repository oracle only (implementation side, no Lean model): file attachments of "
+            "File/Blob elements (upload / download / delete, colliding file names), submodel references carrying a referredSemanticId, the "
+            "shell/submodel superpath (PUT / DELETE / redirect through a shell's reference); NOT covered: SubmodelElementList children, "
+            "asset-information, $reference routes, idShort/assetIds/semanticId filters; bodies abstracted to decode outcomes; werkzeug "
+            "routing/conversion trusted and sampled",
     "technique": "Lean 4 proof: invariant + forward simulation over all request histories; ast-extracted tables; differential correspondence via werkzeug.test.Client; independent dict reference repository as oracle",
 }
 ASSUMPTIONS = [
@@ -49,6 +53,11 @@ IDS = ["id:a", "https://x/ä b", "a/b+c=d?", "s"]
 IDSHORTS = ["a", "b", "c1"]
 QTYPES = ["qa", "q/b"]
 PREFERRED = {"id:a": "sm", "https://x/ä b": "sm", "a/b+c=d?": "shell", "s": "cd"}
+# oracle only (the handler model has no attachments and no referredSemanticId): few names / contents, so that they collide
+FILE_NAMES = ["/f/a.txt", "/b"]
+FILE_BYTES = [b"one", b"two\n", b"\x00\xff3"]
+ATT_CTYPES = ["text/plain", "application/x-y"]
+REF_SEMS = [None, None, "sem:1", "https://sem/2"]
 
 
 # ------------------------------------------------------------------------------------------- abstract objects
@@ -61,8 +70,18 @@ def mk_sm(i: str, ids: Optional[str], tok: int, q=(), ch=()) -> Dict[str, Any]:
     return {"k": "sm", "id": i, "root": mk_elem("sm", ids, tok, q, ch)}
 
 
-def mk_shell(i: str, ids: Optional[str], tok: int, refs=()) -> Dict[str, Any]:
-    return {"k": "shell", "id": i, "ids": ids, "tok": tok, "refs": list(refs)}
+def mk_att(k: str, ids: Optional[str], tok: int, cty: str, val: Any = None, q=()) -> Dict[str, Any]:
+    """File ("file") / Blob ("blob") element.  `val`: Blob: the content (standard base64) or None; File in the reference
+    repository: the bytes uploaded to it (base64) or None, in a payload: whether the File has a value (bool)."""
+    return dict(mk_elem(k, ids, tok, q), cty=cty, val=val)
+
+
+def mk_shell(i: str, ids: Optional[str], tok: int, refs=(), rs: Optional[Dict[str, str]] = None) -> Dict[str, Any]:
+    """`rs`: submodel id -> value of the referredSemanticId its reference carries (only present if there is one)"""
+    d = {"k": "shell", "id": i, "ids": ids, "tok": tok, "refs": list(refs)}
+    if rs:
+        d["rs"] = dict(rs)
+    return d
 
 
 def mk_cd(i: str, ids: Optional[str], tok: int) -> Dict[str, Any]:
@@ -80,9 +99,12 @@ def to_sdk(a: Dict[str, Any]):
     if k == "sm":
         r = a["root"]
         return model.Submodel(a["id"], [to_sdk(c) for c in r["ch"]], id_short=r["ids"], description=desc(r["tok"]), qualifier=quals(r["q"]))
+    def ref(x, rs):
+        sem = None if rs is None else model.ExternalReference((model.Key(model.KeyTypes.GLOBAL_REFERENCE, rs),))
+        return model.ModelReference((model.Key(model.KeyTypes.SUBMODEL, x),), model.Submodel, sem)
     if k == "shell":
         return model.AssetAdministrationShell(model.AssetInformation(global_asset_id="g"), a["id"], id_short=a["ids"], description=desc(a["tok"]),
-                                              submodel={model.ModelReference((model.Key(model.KeyTypes.SUBMODEL, x),), model.Submodel) for x in a["refs"]})
+                                              submodel={ref(x, a.get("rs", {}).get(x)) for x in a["refs"]})
     if k == "cd":
         return model.ConceptDescription(a["id"], id_short=a["ids"], description=desc(a["tok"]))
     if k == "prop":
@@ -91,8 +113,13 @@ def to_sdk(a: Dict[str, Any]):
         return model.SubmodelElementCollection(a["ids"], [to_sdk(c) for c in a["ch"]], description=desc(a["tok"]), qualifier=quals(a["q"]))
     if k == "qual":
         return model.Qualifier(a["t"], model.datatypes.String, f"v{a['v']}")
+    if k == "file":
+        return model.File(a["ids"], a["cty"], None, description=desc(a["tok"]), qualifier=quals(a["q"]))
+    if k == "blob":
+        return model.Blob(a["ids"], a["cty"], None if a["val"] is None else base64.b64decode(a["val"]), description=desc(a["tok"]),
+                          qualifier=quals(a["q"]))
     if k == "ref":
-        return model.ModelReference((model.Key(model.KeyTypes.SUBMODEL, a["id"]),), model.Submodel)
+        return ref(a["id"], a.get("rs"))
     raise ValueError(k)
 
 
@@ -120,14 +147,19 @@ def sdk_abs(o) -> Dict[str, Any]:
     if isinstance(o, model.Submodel):
         return {"k": "sm", "id": o.id, "root": mk_elem("sm", o.id_short, tok(o), quals(o), [sdk_abs(c) for c in o.submodel_element])}
     if isinstance(o, model.AssetAdministrationShell):
-        return mk_shell(o.id, o.id_short, tok(o), sorted(r.key[-1].value for r in o.submodel))
+        return mk_shell(o.id, o.id_short, tok(o), sorted(r.key[-1].value for r in o.submodel),
+                        {r.key[-1].value: r.referred_semantic_id.key[-1].value for r in o.submodel if r.referred_semantic_id is not None})
     if isinstance(o, model.ConceptDescription):
         return mk_cd(o.id, o.id_short, tok(o))
     if isinstance(o, model.SubmodelElementCollection):
         return mk_elem("coll", o.id_short, tok(o), quals(o), [sdk_abs(c) for c in o.value])
     if isinstance(o, model.Property):
         return mk_elem("prop", o.id_short, tok(o), quals(o))
-    return {"k": "other:" + type(o).__name__}
+    if isinstance(o, model.File):
+        return mk_att("file", o.id_short, tok(o), o.content_type, o.value is not None, quals(o))
+    if isinstance(o, model.Blob):
+        return mk_att("blob", o.id_short, tok(o), o.content_type, None if o.value is None else base64.b64encode(o.value).decode("ascii"), quals(o))
+    return {"k": "other:" + type(o).__name__, "ids": getattr(o, "id_short", None)}
 
 
 # ------------------------------------------------------------------------------------------- response -> abstract
@@ -151,21 +183,30 @@ def item_of_json(d) -> Any:
         return {"k": "sm", "id": d.get("id"), "root": mk_elem("sm", d.get("idShort"), _tok_json(d), _quals_json(d),
                                                                [item_of_json(c) for c in d.get("submodelElements", [])])}
     if mt == "AssetAdministrationShell":
-        return mk_shell(d.get("id"), d.get("idShort"), _tok_json(d), sorted(r["keys"][-1]["value"] for r in d.get("submodels", [])))
+        return mk_shell(d.get("id"), d.get("idShort"), _tok_json(d), sorted(r["keys"][-1]["value"] for r in d.get("submodels", [])),
+                        {r["keys"][-1]["value"]: r["referredSemanticId"]["keys"][-1]["value"] for r in d.get("submodels", []) if "referredSemanticId" in r})
     if mt == "ConceptDescription":
         return mk_cd(d.get("id"), d.get("idShort"), _tok_json(d))
     if mt == "Property":
         return mk_elem("prop", d.get("idShort"), _tok_json(d), _quals_json(d))
     if mt == "SubmodelElementCollection":
         return mk_elem("coll", d.get("idShort"), _tok_json(d), _quals_json(d), [item_of_json(c) for c in d.get("value", [])])
+    if mt == "File":
+        return mk_att("file", d.get("idShort"), _tok_json(d), d.get("contentType"), "value" in d, _quals_json(d))
+    if mt == "Blob":
+        return mk_att("blob", d.get("idShort"), _tok_json(d), d.get("contentType"), d.get("value"), _quals_json(d))
     if mt is None and "keys" in d:
-        return {"k": "ref", "id": d["keys"][-1]["value"]}
+        r = {"k": "ref", "id": d["keys"][-1]["value"]}
+        if "referredSemanticId" in d:
+            r["rs"] = d["referredSemanticId"]["keys"][-1]["value"]
+        return r
     if mt is None and "type" in d and "valueType" in d:
         return {"k": "qual", "t": d["type"], "v": int(d["value"][1:]) if str(d.get("value", ""))[1:].isdigit() else -1}
     return {"k": "?", "raw": mt}
 
 
-_WRAPPERS = {"submodel", "property", "submodelElementCollection", "qualifier", "reference", "assetAdministrationShell", "conceptDescription"}
+_WRAPPERS = {"submodel", "property", "submodelElementCollection", "qualifier", "reference", "assetAdministrationShell", "conceptDescription",
+             "file", "blob"}
 
 
 def _ln(e) -> str:
@@ -220,18 +261,28 @@ def item_of_xml(e, tag: Optional[str] = None) -> Any:
             tag = "conceptDescription"
         elif "valueType" in names:
             tag = "property"
+        elif "contentType" in names:
+            tag = "att"        # a File or a Blob: an XML response for a single element does not say which
         else:
             tag = "submodelElementCollection"
+    def ref_of(r):
+        d = {"k": "ref", "id": _text(list(_child(r, "keys"))[-1], "value")}
+        rsem = _child(r, "referredSemanticId")
+        if rsem is not None:
+            d["rs"] = _text(list(_child(rsem, "keys"))[-1], "value")
+        return d
     if tag == "reference":
-        keys = _child(e, "keys")
-        return {"k": "ref", "id": _text(list(keys)[-1], "value")}
+        return ref_of(e)
+    if tag in ("file", "blob", "att"):
+        v = _text(e, "value")
+        return mk_att(tag, _text(e, "idShort"), _tok_xml(e), _text(e, "contentType"), (v is not None) if tag == "file" else v, _quals_xml(e))
     if tag == "qualifier":
         v = _text(e, "value") or ""
         return {"k": "qual", "t": _text(e, "type"), "v": int(v[1:]) if v[1:].isdigit() else -1}
     if tag == "assetAdministrationShell":
         sms = _child(e, "submodels")
-        refs = sorted(_text(list(_child(r, "keys"))[-1], "value") for r in (sms if sms is not None else []))
-        return mk_shell(_text(e, "id"), _text(e, "idShort"), _tok_xml(e), refs)
+        rl = [ref_of(r) for r in (sms if sms is not None else [])]
+        return mk_shell(_text(e, "id"), _text(e, "idShort"), _tok_xml(e), sorted(r["id"] for r in rl), {r["id"]: r["rs"] for r in rl if "rs" in r})
     if tag == "submodel":
         ses = _child(e, "submodelElements")
         return {"k": "sm", "id": _text(e, "id"), "root": mk_elem("sm", _text(e, "idShort"), _tok_xml(e), _quals_xml(e),
@@ -307,7 +358,7 @@ def canon_response(method: str, resp) -> Any:
             return ["resp", status, loc, ["item", item_of_xml(root)]]
     except Exception as e:  # unparsable payload: reported verbatim, never hidden
         return ["resp", status, loc, ["unparsable", type(e).__name__, data[:120].decode("utf-8", "replace")]]
-    return ["resp", status, loc, ["other", ct]]
+    return ["resp", status, loc, ["other", resp.headers.get("Content-Type"), base64.b64encode(data).decode("ascii")]]
 
 
 def exc_name(e: BaseException) -> Any:
@@ -329,6 +380,9 @@ MALFORMED = {"json": [b"{", b"{}", b"5", b"null", b'{"modelType":"Submodel"}', b
                       b'{"modelType":"Property","idShort":"a b","valueType":"xs:string"}', b'{"modelType":"Nonsense","id":"x"}'],
              "xml": [b"<a", b"<a/>", b"", b"<?xml version='1.0'?>", b"\xff\xfe", b'<aas:submodel xmlns:aas="https://admin-shell.io/aas/3/0"/>',
                      b'<aas:submodel xmlns:aas="https://admin-shell.io/aas/3/0"><aas:id></aas:id></aas:submodel>']}
+# nested deeper than the parsers follow (json: the interpreter's recursion limit; lxml: 256 levels)
+TOO_DEEP = {"json": [b"[" * 100000, b'{"a":' * 50000 + b"1" + b"}" * 50000, b"[" * 5000 + b"]" * 5000],
+            "xml": [b"<a>" * 300 + b"</a>" * 300, b'<aas:submodel xmlns:aas="https://admin-shell.io/aas/3/0">' + b"<aas:a>" * 2000 + b"</aas:a>" * 2000 + b"</aas:submodel>"]}
 QVALS = [None, "0", "1", "2", "3", "10", "-1", "x", "", "1_0", " 2", "+1", "٣", "99999999999999999999", "9223372036854775807"]
 
 
@@ -359,11 +413,19 @@ def qint(v: Optional[str]) -> Any:
 
 
 def mk_req(method: str, segs: List[str], accept: int = 0, ctype: int = 6, body: Any = "absent", body_bytes: bytes = b"",
-           limit: Optional[str] = None, cursor: Optional[str] = None, level: Optional[str] = None, sem: Any = None) -> Dict[str, Any]:
+           limit: Optional[str] = None, cursor: Optional[str] = None, level: Optional[str] = None, sem: Any = None,
+           xq: Optional[str] = None, form: Optional[Dict[str, Any]] = None) -> Dict[str, Any]:
     """A request: everything needed to send it (segs/headers/bytes) and to describe it to the model (classes).
-    `body` is the abstract payload ({"p":...}) or "absent" | "malformed" | "array"."""
-    return {"m": method, "segs": segs, "acc": accept, "ct": ctype, "body": body, "bytes": base64.b64encode(body_bytes).decode("ascii"),
-            "limit": limit, "cursor": cursor, "level": level, "sem": sem}
+    `body` is the abstract payload ({"p":...}) or "absent" | "malformed" | "toodeep" | "array" | "raw" (oracle only: no model class).
+    `xq`: further raw query string (sent as is); `form`: a multipart/form-data body instead of `bytes`
+    ({"fileName": str | None, "file": [base64 content, file name, mimetype] | None})."""
+    R = {"m": method, "segs": segs, "acc": accept, "ct": ctype, "body": body, "bytes": base64.b64encode(body_bytes).decode("ascii"),
+         "limit": limit, "cursor": cursor, "level": level, "sem": sem}
+    if xq is not None:
+        R["xq"] = xq
+    if form is not None:
+        R["form"] = form
+    return R
 
 
 def model_line(R: Dict[str, Any]) -> List[Any]:
@@ -376,20 +438,27 @@ def model_line(R: Dict[str, Any]) -> List[Any]:
 def url_of(R: Dict[str, Any]) -> str:
     u = BASE + "".join("/" + urllib.parse.quote(s, safe="$=.") for s in R["segs"])
     q = [(k, R[k2]) for k, k2 in (("limit", "limit"), ("cursor", "cursor"), ("level", "level")) if R[k2] is not None]
-    if q:
-        u += "?" + urllib.parse.urlencode(q)
+    qs = ([urllib.parse.urlencode(q)] if q else []) + ([R["xq"]] if R.get("xq") else [])
+    if qs:
+        u += "?" + "&".join(qs)
     return u
 
 
 class Server:
     """A real WSGIApp over a real object store, driven in-process."""
 
+    _app: Any = None
+    _built = 0
+
     def __init__(self, file_backed: bool = False):
         from basyx.aas import model
         from basyx.aas.adapter import http, aasx
         from werkzeug.test import Client
+        import logging
+        logging.getLogger("basyx").setLevel(logging.ERROR)      # the readers warn about every oddity of a body on stderr
         self.file_backed = file_backed
         self.dir = None
+        self.last_exc = None
         if file_backed:
             from basyx.aas.backend import local_file
             self.dir = tempfile.mkdtemp(prefix="c10-")
@@ -398,7 +467,15 @@ class Server:
         else:
             self.store = model.DictObjectStore()
         self.files = aasx.DictSupplementaryFileContainer()
-        self.app = http.WSGIApp(self.store, self.files, base_path=BASE)
+        # Building the application compiles its 78 routing rules (most of the cost of a short history).  WSGIApp keeps its two
+        # stores in plain attributes read by the handlers at request time, so a built application is re-used over fresh stores;
+        # every 20th server builds a new one, so that the constructor stays exercised.
+        Server._built += 1
+        app = Server._app if Server._built % 20 else None
+        if app is None or set(vars(app)) != {"object_store", "file_store", "url_map"}:
+            app = Server._app = http.WSGIApp(self.store, self.files, base_path=BASE)
+        app.object_store, app.file_store = self.store, self.files
+        self.app = app
         self.client = Client(self.app)
 
     def close(self):
@@ -415,17 +492,57 @@ class Server:
             kw["content_type"] = CTYPES[R["ct"]][0]
         if data or R["m"] in ("POST", "PUT"):
             kw["data"] = data
+        form = R.get("form")
+        if form is not None:
+            # written out by hand: a client is free to put any bytes into the part headers
+            bd = "----c10boundary"
+            parts = []
+            if form.get("fileName") is not None:
+                parts.append(f'--{bd}\r\nContent-Disposition: form-data; name="fileName"\r\n\r\n'.encode() + form["fileName"].encode("utf-8", "surrogatepass") + b"\r\n")
+            if form.get("file") is not None:
+                content, fn, mime = form["file"]
+                parts.append(f'--{bd}\r\nContent-Disposition: form-data; name="file"; filename="'.encode() + fn.encode("utf-8", "surrogatepass") + b'"\r\nContent-Type: '
+                             + mime.encode("utf-8", "surrogatepass") + b"\r\n\r\n" + base64.b64decode(content) + b"\r\n")
+            kw = {"data": b"".join(parts) + f"--{bd}--\r\n".encode(), "content_type": f"multipart/form-data; boundary={bd}"}
+        self.last_exc = None
         try:
             resp = self.client.open(url_of(R), method=R["m"], headers=headers, **kw)
         except Exception as e:  # an exception left the WSGI callable
+            import traceback
+            self.last_exc = (type(e).__name__, str(e)[:300], [f.name for f in traceback.extract_tb(e.__traceback__)])
             return ["crash", exc_name(e)]
         return canon_response(R["m"], resp)
 
     def snapshot(self) -> List[Any]:
-        objs = [sdk_abs(o) for o in self.store]
+        def abs_(o):
+            try:
+                return sdk_abs(o)
+            except RecursionError:      # (oracle only) an object nested deeper than the interpreter follows
+                return {"k": "other:too-deep", "id": getattr(o, "id", None)}
+        objs = [abs_(o) for o in self.store]
         if self.file_backed:
             objs.sort(key=lambda o: o.get("id", ""))
         return objs
+
+    def snapshot_full(self) -> List[Any]:
+        """Everything a rejected request must leave alone: every stored object (the abstraction by public attributes where it
+        covers the class, and the complete serialised form), and the file container (name -> content hash, content type).
+        An object that cannot be abstracted/serialised is represented by the reason (constant across a request that leaves it alone)."""
+        from basyx.aas.adapter.json import AASToJsonEncoder
+        objs = []
+        for o in self.store:
+            try:
+                a = json.dumps(sdk_abs(o), sort_keys=True)
+            except Exception as e:
+                a = f"not-abstracted:{type(e).__name__}"
+            try:
+                j = json.dumps(o, cls=AASToJsonEncoder, sort_keys=True)
+            except Exception as e:
+                j = f"not-serialised:{type(e).__name__}"
+            objs.append([str(getattr(o, "id", None)), a, j])
+        objs.sort()
+        files = sorted([n, self.files.get_sha256(n).hex(), self.files.get_content_type(n)] for n in self.files)
+        return [objs, files]
 
 
 def canon_out(o: Any, file_backed: bool) -> Any:
@@ -451,24 +568,35 @@ def canon_out(o: Any, file_backed: bool) -> Any:
 
 # ------------------------------------------------------------------------------------------- generators
 
-def gen_elem(rng: random.Random, depth: int, ids: Optional[str], kind: Optional[str] = None) -> Dict[str, Any]:
+def gen_elem(rng: random.Random, depth: int, ids: Optional[str], kind: Optional[str] = None, zoo: bool = False) -> Dict[str, Any]:
+    """zoo (oracle only): also File and Blob elements"""
+    if kind is None and zoo and rng.random() < 0.35:
+        kind = rng.choice(["file", "file", "blob"])
     k = kind or ("coll" if depth > 0 and rng.random() < 0.4 else "prop")
     q = [[t, rng.randrange(3)] for t in QTYPES if rng.random() < 0.45]
+    if k == "file":
+        return mk_att("file", ids, rng.randrange(4), rng.choice(ATT_CTYPES), None, q)
+    if k == "blob":
+        return mk_att("blob", ids, rng.randrange(4), rng.choice(ATT_CTYPES),
+                      rng.choice([None, base64.b64encode(rng.choice(FILE_BYTES)).decode("ascii")]), q)
     ch = []
     if k == "coll":
         for n in rng.sample(IDSHORTS, rng.randint(0, len(IDSHORTS))):
-            ch.append(gen_elem(rng, depth - 1, n))
+            ch.append(gen_elem(rng, depth - 1, n, zoo=zoo))
     return mk_elem(k, ids, rng.randrange(4), q, ch)
 
 
-def gen_obj(rng: random.Random, kind: str, i: str) -> Dict[str, Any]:
+def gen_obj(rng: random.Random, kind: str, i: str, zoo: bool = False) -> Dict[str, Any]:
+    """zoo (oracle only): File/Blob elements; references of a shell that carry a referredSemanticId"""
     ids = rng.choice([None, "x1", "sh"])
     if kind == "sm":
         q = [[t, rng.randrange(3)] for t in QTYPES if rng.random() < 0.45]
-        ch = [gen_elem(rng, 2, n) for n in rng.sample(IDSHORTS, rng.randint(0, len(IDSHORTS)))]
+        ch = [gen_elem(rng, 2, n, zoo=zoo) for n in rng.sample(IDSHORTS, rng.randint(0, len(IDSHORTS)))]
         return mk_sm(i, ids, rng.randrange(4), q, ch)
     if kind == "shell":
-        return mk_shell(i, ids, rng.randrange(4), sorted(rng.sample(IDS, rng.randint(0, 2))))
+        refs = sorted(rng.sample(IDS, rng.randint(0, 2)))
+        rs = {x: y for x, y in ((x, rng.choice(REF_SEMS)) for x in refs) if y is not None} if zoo else None
+        return mk_shell(i, ids, rng.randrange(4), refs, rs)
     return mk_cd(i, ids, rng.randrange(4))
 
 
@@ -476,7 +604,7 @@ TOP = {"shell": "shells", "sm": "submodels", "cd": "concept-descriptions"}
 
 
 def body_for(rng: random.Random, payload: Dict[str, Any], cls: str = "ok") -> Tuple[int, Any, bytes]:
-    """(content-type index, abstract body, bytes).  cls: ok | malformed | array | absent | badct"""
+    """(content-type index, abstract body, bytes).  cls: ok | malformed | toodeep | array | absent | badct"""
     ct = rng.choice([0, 0, 0, 1, 2, 3, 4])
     fmt = "json" if CTYPES[ct][1] == "json" else "xml"
     abstract = {"obj": {"p": "obj", "o": payload}, "elem": {"p": "elem", "e": payload}, "qual": {"p": "qual", "t": payload.get("t"), "v": payload.get("v")},
@@ -485,6 +613,8 @@ def body_for(rng: random.Random, payload: Dict[str, Any], cls: str = "ok") -> Tu
         return ct, abstract, serialise(payload, fmt)
     if cls == "malformed":
         return ct, "malformed", rng.choice(MALFORMED[fmt])
+    if cls == "toodeep":
+        return ct, "toodeep", rng.choice(TOO_DEEP[fmt])
     if cls == "array":
         return 0, "array", b"[" + serialise(payload, "json") + b"]"
     if cls == "absent":
@@ -494,7 +624,7 @@ def body_for(rng: random.Random, payload: Dict[str, Any], cls: str = "ok") -> Tu
 
 
 def payload_class(p: Dict[str, Any]) -> str:
-    return {"sm": "obj", "shell": "obj", "cd": "obj", "prop": "elem", "coll": "elem", "qual": "qual", "ref": "ref"}[p["k"]]
+    return {"sm": "obj", "shell": "obj", "cd": "obj", "prop": "elem", "coll": "elem", "file": "elem", "blob": "elem", "qual": "qual", "ref": "ref"}[p["k"]]
 
 
 def rand_path(rng: random.Random, deep: bool = True) -> List[str]:
@@ -538,7 +668,7 @@ def gen_request(rng: random.Random, wild: float = 0.15, snapshot: Optional[List[
         target = rng.choice(existing)
         i = target["id"]
         seg_id = b64(i, pad)
-    bcls = "ok" if not w else rng.choice(["ok", "malformed", "array", "absent", "badct"])
+    bcls = "ok" if not w else rng.choice(["ok", "malformed", "malformed", "array", "array", "absent", "absent", "badct", "badct", "toodeep"])
     def with_body(method, segs, payload, sem=None, **kw):
         ct, ab, by = body_for(rng, payload, bcls)
         return mk_req(method, segs, acc, ct, ab, by, level=level, sem=sem, **kw)
@@ -577,7 +707,7 @@ def gen_request(rng: random.Random, wild: float = 0.15, snapshot: Optional[List[
         segs = ["submodels", sm_seg, "submodel-elements"] + ([praw] if rng.random() < 0.6 else [])
         return with_body("POST", segs, e)
     if r < 0.84:
-        ek = tnode["k"] if tnode is not None and rng.random() < 0.85 else rng.choice(["prop", "coll"])
+        ek = tnode["k"] if tnode is not None and tnode["k"] in ("prop", "coll") and rng.random() < 0.85 else rng.choice(["prop", "coll"])
         e = gen_elem(rng, 1, path[-1] if rng.random() < 0.85 else rng.choice(IDSHORTS), kind=ek)
         return with_body("PUT", ["submodels", sm_seg, "submodel-elements", praw], e)
     if r < 0.88:
@@ -620,7 +750,7 @@ def find_elem(root: Dict[str, Any], path: List[str]) -> Optional[Dict[str, Any]]
     cur = root
     for seg in path:
         nxt = [c for c in cur.get("ch", []) if c["ids"] == seg]
-        if not nxt or cur["k"] == "prop":
+        if not nxt or cur["k"] not in ("sm", "coll"):
             return None
         cur = nxt[0]
     return cur
@@ -800,6 +930,10 @@ def norm(o: Any) -> Any:
     """order-insensitive normal form of an abstract object (children by idShort, qualifiers by type)"""
     if isinstance(o, dict):
         d = {k: norm(v) for k, v in o.items()}
+        if d.get("k") == "file":
+            d["val"] = d.get("val") is not None and d.get("val") is not False
+        if "rs" in d and not d["rs"]:
+            del d["rs"]
         if "ch" in d:
             d["ch"] = sorted(d["ch"], key=lambda c: str(c.get("ids")))
         if "q" in d:
@@ -848,13 +982,22 @@ class OracleRun:
         self.trace: List[Dict[str, Any]] = []
         self.fb = file_backed
         self.clashed: set = set()       # submodels that received a PUT changing the class of a nested element
+        self.uploads: Dict[str, Any] = {}    # "submodel id|path" of a File -> (fileName, content, content type) of the upload it holds
+        self.released: List[Any] = []        # uploads whose File had its attachment deleted
+        self.stats: Dict[str, int] = {}
+        self.cur_op: Optional[str] = None
 
     def close(self):
         self.srv.close()
 
     def send(self, R):
         self.trace.append(R)
-        return self.srv.send(R)
+        out = self.srv.send(R)
+        if self.cur_op is not None:
+            key = f"oracle:{self.cur_op}:{out[1] if out[0] == 'resp' else 'crash'}"
+            self.stats[key] = self.stats.get(key, 0) + 1
+            self.cur_op = None      # only the operation's own request, not the probes that follow it
+        return out
 
     def fail(self, sig, what, observed=None, required=None) -> C.Failing:
         return C.Failing(sig, what, {"mode": "file" if self.fb else "dict", "reqs": list(self.trace)}, observed, required)
@@ -970,10 +1113,54 @@ class OracleRun:
                     return self.fail("http:PUT:nested-class-change", f"after a PUT that changes the class of a nested element, {'.'.join(path)} of {i!r} answered {out[:2]}", out, 200)
                 return self.fail("http:GET:elem:stored-not-200", f"element {'.'.join(path)} of {i!r} answered {out[:2]}", out, 200)
             got = self.payload_of(out)
+            if isinstance(got, dict) and got.get("k") == "att" and want["k"] in ("file", "blob"):
+                got = dict(got, k=want["k"])
             if norm(got) != norm(want):
                 if got is not None and got.get("ids") != path[-1]:
                     return self.fail("http:GET:elem:filed-under-foreign-idshort", f"element read under {'.'.join(path)} reports idShort {got.get('ids')!r}", got, want)
                 return self.classify_payload("http:GET:elem:payload", i, got, want, f"element {'.'.join(path)} of {i!r} differs from the reference repository")
+            if want["k"] in ("file", "blob"):
+                f = self.check_attachment(i, path, want)
+                if f:
+                    return f
+        return None
+
+    def check_attachment(self, i, path, want) -> Optional[C.Failing]:
+        """a File / Blob answers with exactly the content it holds (what was uploaded to it / its value), 404 if it holds none"""
+        out = self.send(mk_req("GET", ["submodels", self.seg(i), "submodel-elements", ".".join(path), "attachment"], self.acc()))
+        where = f"attachment of {'.'.join(path)} of {i!r}"
+        if out[0] != "resp":
+            return self.fail("http:GET:attachment:crash", f"GET {where} raised {out[1]}", out)
+        if want["val"] is None:
+            if out[1] != 404:
+                return self.fail("http:GET:attachment:none-not-404", f"GET {where}, which holds no content, answered {out[1]}", out, 404)
+            return None
+        if out[1] != 200:
+            up = self.uploads.get(f"{i}|{'.'.join(path)}")
+            if out[1] == 404 and want["k"] == "file" and up is not None and up in self.released:
+                return self.fail("http:attachment:shared-upload-deleted", f"GET {where} answered 404 after the attachment of ANOTHER File, uploaded with "
+                                 "the same fileName, content and content type, was deleted", out, 200)
+            return self.fail("http:GET:attachment:stored-not-200", f"GET {where} answered {out[1]}", out, 200)
+        body = out[3]
+        got = body[2] if body[0] == "other" else None
+        if got is None or base64.b64decode(got) != base64.b64decode(want["val"]):
+            return self.fail("http:GET:attachment:payload", f"GET {where} does not return the content this element holds", body, want["val"])
+        if (body[1] or "").split(";")[0].strip() != want["cty"]:
+            return self.fail("http:GET:attachment:content-type", f"GET {where} is answered with Content-Type {body[1]!r}", body[1], want["cty"])
+        return None
+
+    def check_refs(self, i) -> Optional[C.Failing]:
+        """the references of a stored shell are listed completely (incl. their referredSemanticId)"""
+        sh = self.ref.get("shell", i)
+        if sh is None:
+            return None
+        out = self.send(mk_req("GET", ["shells", self.seg(i), "submodel-refs"], self.acc(), limit="100"))
+        if out[0] != "resp" or out[1] != 200 or out[3][0] != "page":
+            return self.fail("http:LIST:refs:status", f"submodel-refs of {i!r} answered {out[:2]}", out)
+        want = sorted(json.dumps(dict({"k": "ref", "id": x}, **({"rs": sh["rs"][x]} if x in sh.get("rs", {}) else {})), sort_keys=True) for x in sh["refs"])
+        got = sorted(json.dumps(x, sort_keys=True) for x in out[3][1])
+        if got != want:
+            return self.fail("http:LIST:refs:members", f"submodel-refs of {i!r} differ from the reference repository", got, want)
         return None
 
     def sweep(self) -> Optional[C.Failing]:
@@ -986,10 +1173,16 @@ class OracleRun:
             if f:
                 return f
         for i in IDS:
-            f = self.check_elements(i)
+            f = self.check_elements(i) or self.check_refs(i)
             if f:
                 return f
         return None
+
+    def forget_uploads(self, i: str, path: Optional[List[str]] = None):
+        """the Files at / below `path` of submodel `i` are gone or replaced: so is what they held"""
+        pre = f"{i}|" + (".".join(path) if path else "")
+        for k in [k for k in self.uploads if k == pre or k.startswith(pre + ".") or not path and k.startswith(pre)]:
+            del self.uploads[k]
 
     # -- semantic operations
     def op(self, op: List[Any]) -> Optional[C.Failing]:
@@ -1052,6 +1245,7 @@ class OracleRun:
             if kind == "sm" and nested_kind_clash(self.ref.m[i]["root"], o["root"]):
                 self.clashed.add(i)
             self.ref.m[i] = copy.deepcopy(o)
+            self.forget_uploads(i)
             return None
         if k == "delete":
             _, kind, i = op
@@ -1065,6 +1259,7 @@ class OracleRun:
             if out[1] != 204:
                 return self.fail(f"http:DELETE:{kind}:not-204", f"DELETE {kind} {i!r} answered {out[1]}", out, 204)
             del self.ref.m[i]
+            self.forget_uploads(i)
             return None
         if k in ("elem-create", "elem-replace", "elem-delete"):
             i, path = op[1], op[2]
@@ -1088,11 +1283,11 @@ class OracleRun:
             if sm is None or target is None:
                 if not 400 <= out[1] < 500:
                     return self.fail(f"http:{k}:unknown-not-4xx", f"{k} on an unknown submodel/element answered {out[1]}", out, "404")
-                if out[1] != 404 and (sm is None or all(find_elem(sm["root"], path[:n]) is None or find_elem(sm["root"], path[:n])["k"] != "prop" for n in range(len(path)))):
+                if out[1] != 404 and (sm is None or all(find_elem(sm["root"], path[:n]) is None or find_elem(sm["root"], path[:n])["k"] in ("sm", "coll") for n in range(len(path)))):
                     return self.fail(f"http:{k}:unknown-not-404", f"{k} on an unknown submodel/element answered {out[1]}", out, 404)
                 return None
             if k == "elem-create":
-                if target["k"] == "prop" or e["ids"] is None:
+                if target["k"] not in ("sm", "coll") or e["ids"] is None:
                     if not 400 <= out[1] < 500:
                         return self.fail("http:elem-create:invalid-not-4xx", f"POST below a property / without idShort answered {out[1]}", out)
                     return None
@@ -1115,6 +1310,7 @@ class OracleRun:
                 if out[1] != 204:
                     return self.fail("http:elem-delete:not-204", f"DELETE element answered {out[1]}", out, 204)
                 parent["ch"] = [c for c in parent["ch"] if c["ids"] != path[-1]]
+                self.forget_uploads(i, path)
                 o2 = self.send(mk_req("GET", segs, self.acc()))
                 if o2[0] != "resp" or o2[1] != 404:
                     return self.fail("http:elem-delete:still-there", f"element {'.'.join(path)} answered {o2[:2]} after its DELETE was answered 204", o2, 404)
@@ -1123,39 +1319,287 @@ class OracleRun:
                 if 400 <= out[1] < 500:
                     return None
                 parent["ch"] = [copy.deepcopy(e) if c["ids"] == path[-1] else c for c in parent["ch"]]
+                self.forget_uploads(i, path)
                 return None
             if out[1] != 204:
                 return self.fail("http:elem-replace:not-204", f"PUT element answered {out[1]}", out, 204)
             if nested_kind_clash(target, e):
                 self.clashed.add(i)
             parent["ch"] = [copy.deepcopy(e) if c["ids"] == path[-1] else c for c in parent["ch"]]
+            self.forget_uploads(i, path)
+            return None
+        if k in ("att-put", "att-del"):
+            i, path = op[1], op[2]
+            sm = self.ref.get("sm", i)
+            target = find_elem(sm["root"], path) if sm and path else None
+            segs = ["submodels", self.seg(i), "submodel-elements", ".".join(path), "attachment"]
+            if k == "att-put":
+                _, _, _, fname, content, mime = op
+                out = self.send(mk_req("PUT", segs, self.acc(), form={"fileName": fname, "file": [content, fname.split("/")[-1] or "f", mime]}))
+            else:
+                out = self.send(mk_req("DELETE", segs, self.acc()))
+            if out[0] != "resp":
+                return self.fail(f"http:{k}:crash", f"{k} raised {out[1]}", out)
+            if target is None or target["k"] not in ("file", "blob") or (k == "att-put" and target["k"] != "file"):
+                # unknown submodel / element, or an element that cannot hold this: some 4xx, nothing changes (the sweep checks that)
+                if not 400 <= out[1] < 500:
+                    return self.fail(f"http:{k}:invalid-not-4xx", f"{k} on {'.'.join(path)} of {i!r} (no such File/Blob) answered {out[1]}", out, "4xx")
+                return None
+            key = f"{i}|{'.'.join(path)}"
+            if k == "att-del":
+                if target["val"] is None:
+                    if out[1] != 404:
+                        return self.fail("http:att-del:none-not-404", f"DELETE of an attachment that does not exist answered {out[1]}", out, 404)
+                    return None
+                if out[1] != 204:
+                    return self.fail("http:att-del:not-204", f"DELETE attachment answered {out[1]}", out, 204)
+                target["val"] = None
+                if key in self.uploads:
+                    self.released.append(self.uploads.pop(key))
+                return None
+            if target["val"] is not None:
+                if out[1] != 409:
+                    return self.fail("http:att-put:occupied-not-409", f"upload to a File that holds an attachment already answered {out[1]}", out, 409)
+                return None
+            if mime != target["cty"]:
+                if not 400 <= out[1] < 500:
+                    return self.fail("http:att-put:wrong-type-not-4xx", f"upload of {mime!r} to a File of content type {target['cty']!r} answered {out[1]}", out, 415)
+                return None
+            if out[1] != 204:
+                return self.fail("http:att-put:not-204", f"upload to the File {'.'.join(path)} of {i!r} answered {out[1]}", out, 204)
+            target["val"] = content
+            self.uploads[key] = [fname, content, mime]
+            return None
+        if k in ("ref-add", "ref-del", "sp-get", "sp-delete", "sp-put"):
+            i, smid = op[1], op[2]
+            sh = self.ref.get("shell", i)
+            has = sh is not None and smid in sh["refs"]
+            if k == "ref-add":
+                # a second reference to the same submodel that differs in its referredSemanticId only is outside the reference
+                # semantics (a map has one entry per id): the generated reference then repeats the one that is there
+                rs = sh.get("rs", {}).get(smid) if has else op[3]
+                r = {"k": "ref", "id": smid}
+                if rs is not None:
+                    r["rs"] = rs
+                ct, by = self.body(r)
+                out = self.send(mk_req("POST", ["shells", self.seg(i), "submodel-refs"], self.acc(), ct, {"p": "ref", "id": smid}, by))
+            elif k == "ref-del":
+                out = self.send(mk_req("DELETE", ["shells", self.seg(i), "submodel-refs", self.seg(smid)], self.acc()))
+            elif k == "sp-get":
+                out = self.send(mk_req("GET", ["shells", self.seg(i), "submodels", self.seg(smid)] + list(op[3]), self.acc()))
+            elif k == "sp-delete":
+                out = self.send(mk_req("DELETE", ["shells", self.seg(i), "submodels", self.seg(smid)], self.acc()))
+            else:
+                ct, by = self.body(op[3])
+                out = self.send(mk_req("PUT", ["shells", self.seg(i), "submodels", self.seg(smid)], self.acc(), ct, {"p": "obj", "o": op[3]}, by))
+            if out[0] != "resp":
+                return self.fail(f"http:{k}:crash", f"{k} raised {out[1]}", out)
+            if sh is None or (not has and k != "ref-add"):
+                if out[1] != 404:
+                    return self.fail(f"http:{k}:unknown-not-404", f"{k} on a shell / reference that does not exist answered {out[1]}", out, 404)
+                return None
+            if k == "ref-add":
+                if has:
+                    if out[1] != 409:
+                        return self.fail("http:ref-add:duplicate-not-409", f"POST of a reference the shell holds already answered {out[1]}", out, 409)
+                    return None
+                if out[1] != 201:
+                    return self.fail("http:ref-add:not-201", f"POST of a submodel reference answered {out[1]}", out, 201)
+                sh["refs"] = sorted(sh["refs"] + [smid])
+                if rs is not None:
+                    sh.setdefault("rs", {})[smid] = rs
+                return None
+            if k == "ref-del":
+                if out[1] != 204:
+                    return self.fail("http:ref-del:not-204", f"DELETE of the reference to {smid!r}, which the shell {i!r} lists, answered {out[1]}", out, 204)
+                sh["refs"] = [x for x in sh["refs"] if x != smid]
+                sh.get("rs", {}).pop(smid, None)
+                return None
+            if k == "sp-get":
+                if out[1] != 307:
+                    return self.fail("http:sp-get:not-307", f"GET below /shells/{{id}}/submodels/{{id}} for a listed reference answered {out[1]}", out, 307)
+                if not op[3] and out[2] != ["sm", smid]:
+                    return self.fail("http:sp-get:location", f"the redirect names {out[2]}, not the submodel {smid!r}", out[2], ["sm", smid])
+                return None
+            stored = self.ref.get("sm", smid)
+            if stored is None:
+                # a listed reference to something that is not a stored submodel: not found, nothing changes
+                if out[1] != 404:
+                    return self.fail(f"http:{k}:dangling-not-404", f"{k} through a reference to {smid!r}, which is not a stored submodel, answered {out[1]}", out, 404)
+                return None
+            if k == "sp-delete":
+                if out[1] != 204:
+                    return self.fail("http:sp-delete:not-204", f"DELETE of the stored submodel {smid!r} through the shell {i!r} answered {out[1]}", out, 204)
+                del self.ref.m[smid]
+                self.forget_uploads(smid)
+                sh["refs"] = [x for x in sh["refs"] if x != smid]
+                sh.get("rs", {}).pop(smid, None)
+                return None
+            o = op[3]
+            if o["id"] != smid:
+                # neutral zone as for PUT /submodels/{id}: rejected (4xx, unchanged) or re-filed under the id it claims (and the
+                # shell's reference follows); the sweep demands "reachable under exactly its own identifier" either way
+                if 400 <= out[1] < 500:
+                    return None
+                self.ref.m.pop(smid)
+                self.ref.m[o["id"]] = copy.deepcopy(o)
+                self.forget_uploads(smid)
+                rs = sh.get("rs", {}).pop(smid, None)
+                sh["refs"] = sorted(set([x for x in sh["refs"] if x != smid] + [o["id"]]))
+                return None
+            if out[1] != 204:
+                return self.fail("http:sp-put:not-204", f"PUT of the stored submodel {smid!r} through the shell {i!r} answered {out[1]}", out, 204)
+            if nested_kind_clash(stored["root"], o["root"]):
+                self.clashed.add(smid)
+            self.ref.m[smid] = copy.deepcopy(o)
+            self.forget_uploads(smid)
             return None
         raise ValueError(op)
 
 
 def gen_semantic_ops(rng: random.Random, n: int, allow_known: bool) -> List[List[Any]]:
-    """Semantic operations for the reference-repository oracle.  With allow_known=False the generator stays inside what the
-    statement's reference semantics and the recorded findings leave undisputed (qualifier values in PUT bodies equal to the
-    stored ones is NOT avoided: it is avoided only through `q`-free replacements, see design/C10.md)."""
+    """Semantic operations for the reference-repository oracle.  The generator follows what the history has created so far (a
+    plain approximation `made`: ids, element paths, references), so that most operations address resources that exist: a history
+    starts by creating a few objects, an operation that needs a kind of which nothing exists yet becomes its creation, uploads go
+    to File elements (few file names and contents: different Files upload under the same fileName), reference operations to
+    references a shell holds (some carrying a referredSemanticId)."""
     ops: List[List[Any]] = []
-    for _ in range(n):
+    made: Dict[str, Dict[str, Any]] = {}
+    def known(kind):
+        return [i for i, o in made.items() if o["k"] == kind]
+    def create(kind, i=None):
+        if i is None:
+            free = [x for x in IDS if x not in made]
+            i = rng.choice(free) if free and rng.random() < 0.85 else rng.choice(IDS)
+        o = gen_obj(rng, kind, i, zoo=True)
+        if kind == "shell" and known("sm") and rng.random() < 0.8:
+            refs = sorted(set(rng.sample(known("sm"), rng.randint(1, min(2, len(known("sm"))))) + (o["refs"][:1] if rng.random() < 0.3 else [])))
+            rs = {x: y for x, y in ((x, rng.choice(REF_SEMS)) for x in refs) if y is not None}
+            o = mk_shell(i, o["ids"], o["tok"], refs, rs)
+        core = rng.random() < 0.08
+        ops.append(["create", kind, o] + (["core"] if core else []))
+        if i not in made:
+            made[i] = strip_abs(o) if core and kind != "shell" else copy.deepcopy(o)
+    def need(kind):
+        """an id of a stored object of this kind (mostly), creating one first if there is none"""
+        if not known(kind):
+            create(kind)
+        ks = known(kind)
+        return rng.choice(ks) if ks and rng.random() < 0.9 else rng.choice(IDS)
+    def some_path(i, kinds=None):
+        o = made.get(i)
+        if o is not None and o["k"] == "sm" and rng.random() < 0.9:
+            ps = [p for p, e in all_paths(o["root"]) if kinds is None or e["k"] in kinds]
+            if ps:
+                return rng.choice(ps)
+        return rand_path(rng)
+    def sm_elem(i, p):
+        o = made.get(i)
+        return find_elem(o["root"], p) if o is not None and o["k"] == "sm" and p else None
+    for _ in range(rng.randint(1, 3)):
+        create(rng.choice(["sm", "sm", "sm", "shell", "cd"]))
+    while len(ops) < n:
         r = rng.random()
         kind = rng.choice(["sm", "sm", "shell", "cd"])
-        i = rng.choice(IDS)
-        if r < 0.3:
-            ops.append(["create", kind, gen_obj(rng, kind, i)] + (["core"] if rng.random() < 0.1 else []))
-        elif r < 0.5:
-            o = gen_obj(rng, kind, i if rng.random() < 0.9 else rng.choice(IDS))
+        if r < 0.12:
+            create(kind)
+        elif r < 0.26:
+            i = need(kind)
+            o = gen_obj(rng, kind, i if rng.random() < 0.9 else rng.choice(IDS), zoo=True)
             ops.append(["replace", kind, i, o])
-        elif r < 0.6:
+            if made.get(i, {}).get("k") == kind and o["id"] == i:
+                made[i] = copy.deepcopy(o)
+        elif r < 0.31:
+            i = need(kind)
             ops.append(["delete", kind, i])
-        elif r < 0.8:
-            ops.append(["elem-create", i, rand_path(rng)[: rng.choice([0, 1, 2])], gen_elem(rng, 1, rng.choice(IDSHORTS))])
-        elif r < 0.92:
-            p = rand_path(rng)
-            ops.append(["elem-replace", i, p, gen_elem(rng, 1, p[-1] if rng.random() < 0.9 else rng.choice(IDSHORTS), kind=rng.choice(["prop", "coll"]))])
+            if made.get(i, {}).get("k") == kind:
+                del made[i]
+        elif r < 0.45:
+            i = need("sm")
+            path = some_path(i, ("coll",))[: rng.choice([0, 0, 1, 2, 3])]
+            if sm_elem(i, path) is None:
+                path = []
+            e = gen_elem(rng, 1, rng.choice(IDSHORTS), zoo=True)
+            ops.append(["elem-create", i, path, e])
+            parent = find_elem(made[i]["root"], path) if made.get(i, {}).get("k") == "sm" else None
+            if parent is not None and parent["k"] in ("sm", "coll") and all(c["ids"] != e["ids"] for c in parent["ch"]):
+                parent["ch"].append(copy.deepcopy(e))
+        elif r < 0.54:
+            i = need("sm")
+            p = some_path(i)
+            old = sm_elem(i, p)
+            k2 = old["k"] if old is not None and rng.random() < 0.8 else rng.choice(["prop", "coll", "file", "blob"])
+            e = gen_elem(rng, 1, p[-1] if rng.random() < 0.9 else rng.choice(IDSHORTS), kind=k2, zoo=True)
+            ops.append(["elem-replace", i, p, e])
+            if old is not None and old["k"] == e["k"] and e["ids"] == p[-1]:
+                parent = find_elem(made[i]["root"], p[:-1])
+                parent["ch"] = [copy.deepcopy(e) if c["ids"] == p[-1] else c for c in parent["ch"]]
+        elif r < 0.59:
+            i = need("sm")
+            p = some_path(i)
+            ops.append(["elem-delete", i, p])
+            if sm_elem(i, p) is not None:
+                parent = find_elem(made[i]["root"], p[:-1])
+                parent["ch"] = [c for c in parent["ch"] if c["ids"] != p[-1]]
+        elif r < 0.80:
+            # attachments
+            i = need("sm")
+            o = made.get(i)
+            files = [p for p, e in all_paths(o["root"]) if e["k"] == "file"] if o is not None and o["k"] == "sm" else []
+            if not files and rng.random() < 0.8 and o is not None and o["k"] == "sm":
+                free = [x for x in IDSHORTS if all(c["ids"] != x for c in o["root"]["ch"])]
+                if free:
+                    e = gen_elem(rng, 0, rng.choice(free), kind="file")
+                    ops.append(["elem-create", i, [], e])
+                    o["root"]["ch"].append(copy.deepcopy(e))
+                    continue
+            if rng.random() < 0.35:
+                # several Files of the repository (this submodel's and the others') receive uploads, mostly under one fileName
+                allf = [(j, p) for j in known("sm") for p, e in all_paths(made[j]["root"]) if e["k"] == "file"]
+                fname = rng.choice(FILE_NAMES)
+                chosen = rng.sample(allf, min(len(allf), rng.randint(2, 3)))
+                content = rng.choice(FILE_BYTES)
+                for j, p in chosen:
+                    ops.append(["att-put", j, p, fname if rng.random() < 0.8 else rng.choice(FILE_NAMES),
+                                base64.b64encode(content if rng.random() < 0.5 else rng.choice(FILE_BYTES)).decode("ascii"), sm_elem(j, p)["cty"]])
+                if chosen and rng.random() < 0.5:
+                    # ... and one of them is deleted again: the others keep theirs
+                    ops.append(["att-del"] + list(rng.choice(chosen)))
+                continue
+            p = rng.choice(files) if files and rng.random() < 0.85 else some_path(i, ("file", "blob") if rng.random() < 0.8 else None)
+            if rng.random() < 0.7:
+                e = sm_elem(i, p)
+                mime = e["cty"] if e is not None and "cty" in e and rng.random() < 0.9 else rng.choice(ATT_CTYPES)
+                ops.append(["att-put", i, p, rng.choice(FILE_NAMES), base64.b64encode(rng.choice(FILE_BYTES)).decode("ascii"), mime])
+            else:
+                ops.append(["att-del", i, p])
         else:
-            ops.append(["elem-delete", i, rand_path(rng)])
+            if not known("sm"):
+                create("sm")
+            sh = need("shell")
+            o = made.get(sh)
+            held = o["refs"] if o is not None and o["k"] == "shell" else []
+            smid = rng.choice(held) if held and rng.random() < 0.75 else need("sm")
+            r2 = rng.random()
+            if r2 < 0.3 or not held:
+                ops.append(["ref-add", sh, smid, rng.choice(REF_SEMS)])
+                if o is not None and o["k"] == "shell" and smid not in o["refs"]:
+                    o["refs"] = sorted(o["refs"] + [smid])
+            elif r2 < 0.55:
+                ops.append(["ref-del", sh, smid])
+                if o is not None and o["k"] == "shell":
+                    o["refs"] = [x for x in o["refs"] if x != smid]
+            elif r2 < 0.7:
+                ops.append(["sp-get", sh, smid, rng.choice([[], [], ["submodel-elements"]])])
+            elif r2 < 0.85:
+                ops.append(["sp-delete", sh, smid])
+                if o is not None and o["k"] == "shell" and smid in o["refs"] and made.get(smid, {}).get("k") == "sm":
+                    del made[smid]
+                    o["refs"] = [x for x in o["refs"] if x != smid]
+            else:
+                ops.append(["sp-put", sh, smid, gen_obj(rng, "sm", smid if rng.random() < 0.88 else rng.choice(IDS), zoo=True)])
+                if o is not None and o["k"] == "shell" and smid in o["refs"] and made.get(smid, {}).get("k") == "sm" and ops[-1][3]["id"] == smid:
+                    made[smid] = copy.deepcopy(ops[-1][3])
     return ops
 
 
@@ -1176,18 +1620,25 @@ def strip_quals(o):
     return o
 
 
-def run_semantic(ops: List[List[Any]], file_backed: bool, seed: Any, sweep: bool = True) -> Optional[C.Failing]:
+def run_semantic(ops: List[List[Any]], file_backed: bool, seed: Any, sweep: bool = True, stats: Optional[Dict[str, int]] = None) -> Optional[C.Failing]:
     run = OracleRun(file_backed, random.Random(f"sem:{seed}"))
     try:
-        for op in ops:
+        for k, op in enumerate(ops):
+            run.cur_op = op[0]
             f = run.op(copy.deepcopy(op))
-            if f is None and sweep:
+            run.cur_op = None
+            # sweep = "some": the complete sweep after about a third of the operations and after the last one (search speed);
+            # recorded cases are replayed with the sweep after every operation
+            if f is None and sweep and (sweep != "some" or k == len(ops) - 1 or random.Random(f"sw:{seed}:{k}").random() < 0.3):
                 f = run.sweep()
             if f is not None:
-                f.case = {"kind": "semantic", "mode": "file" if file_backed else "dict", "ops": ops[: ops.index(op) + 1], "seed": str(seed)}
+                f.case = {"kind": "semantic", "mode": "file" if file_backed else "dict", "ops": ops[: k + 1], "seed": str(seed)}
                 return f
         return None
     finally:
+        if stats is not None:
+            for k, v in run.stats.items():
+                stats[k] = stats.get(k, 0) + v
         run.close()
 
 
@@ -1195,12 +1646,20 @@ def oracle(ctx: C.Ctx, cov: C.Coverage) -> List[C.Failing]:
     rng = random.Random(f"C10-oracle:{ctx.seed}")
     out: List[C.Failing] = []
     sigs = set()
-    n = ctx.budget(100, 900)
+    n = ctx.budget(240, 1800)
+    cov.extra["oracle"] = ("semantic operation histories against the reference repository (a dict of plain objects): create / replace / delete of shells, "
+                           "submodels, concept descriptions; nested elements incl. File and Blob; uploads to / downloads from / deletions of "
+                           "attachments with 2 file names x 3 contents x 2 content types (different Files upload under one name); submodel "
+                           "references with and without referredSemanticId (add, delete, listing); PUT / DELETE / redirect through a shell's "
+                           "reference; after an operation the sweep reads every id x kind, the listings, a cursor walk, every element by its "
+                           "path, every attachment, every shell's references")
     for hi in range(n):
-        ops = gen_semantic_ops(rng, rng.randint(3, 10), True)
+        ops = gen_semantic_ops(rng, rng.randint(5, 14), True)
         fb = hi % 5 == 4
-        f = run_semantic(ops, fb, (ctx.seed, hi))
+        f = run_semantic(ops, fb, (ctx.seed, hi), "some", stats=cov.histogram)
         cov.hit("oracle-histories")
+        if f is not None:
+            f = run_semantic(f.case["ops"], fb, (ctx.seed, hi)) or f       # the first operation after which the complete sweep fails
         if f is not None and f.sig not in sigs:
             sigs.add(f.sig)
             f.case["ops"] = C.ddmin(f.case["ops"], lambda o, f=f, fb=fb, hi=hi: (lambda g: g is not None and g.sig == f.sig)(run_semantic(o, fb, (ctx.seed, hi))), 60)
